@@ -472,7 +472,7 @@ theorem Base.dlqwE {G : Ctx} {s s' : PS} {t : Nat} {i : List (Rec × Option Err 
     rw [errT_push G s s' _ hlog]
     exact List.append_nil _
   exact ⟨htv, h.sc.event (.dlqw t i) t rfl hlog hscr, by rw [hwr]; exact h.wr, by rw [he]; exact h.errIn,
-    by rw [hwr]; exact h.wrIn, by rw [hscr]; exact h.ns.pop t⟩
+    by rw [hwr]; exact h.wrIn, fun hg => by rw [hscr]; exact (h.ns hg).pop t⟩
 
 theorem Base.sackE {G : Ctx} {s s' : PS} {ps : List PosV} (h : Base G s)
     (hlog : s'.log = s.log.push (.sack ps)) (hscr : s'.scripts = s.scripts)
